@@ -78,8 +78,11 @@ BadValue(it, v) == ConvBad(it.vt, v) \/ (it.guard /\ v = GuardBad)
 \* (in front of any later command name); every other arity keeps them consumed.
 FeedArg(st, id, v) ==
   LET it == ItemById(Cur(st).lvl, id)
-      stays == it.arity \in {"fallback", "fallback_with"} /\ Cur(st).acc[id] = <<>> /\ BadValue(it, v) IN
-  Feed(IF stays THEN [st EXCEPT !.frozen = TRUE] ELSE st, id, v)
+      stays == it.arity \in {"fallback", "fallback_with"} /\ Cur(st).acc[id] = <<>> /\ BadValue(it, v)
+      \* a repetition stops at the first invalid value: later occurrences are never looked at and stay where
+      \* they were typed, too
+      stuck == it.arity \in {"many", "some", "last"} /\ \E i \in DOMAIN Cur(st).acc[id] : BadValue(it, Cur(st).acc[id][i]) IN
+  Feed(IF stays \/ stuck THEN [st EXCEPT !.frozen = TRUE] ELSE st, id, v)
 PushPos(st, w, after) == SetCur(st, [Cur(st) EXCEPT !.pos = Append(@, [w |-> w, after |-> after])])
 
 \* a name that an enclosing level declares, typed to the right of a subcommand name: the
